@@ -35,6 +35,19 @@ chk("C20", "exploration",
     "Generated JSON objects (escapes, unicode, every number notation, nested containers, empty object) are stored and read back through the store's fetch filter and through the proxy with a '| fields' / '| fields except' pipe; encoding/json, comparing numbers as exact rationals, checks validity, the exact key set and value equality, byte identity without a pipe and an unchanged ID sequence.",
     "No duplicate keys; encoding/json is the independent reader.", "runtime oracle with an independent JSON reader over seeded documents and field lists", "DESIGN.md 2/C20")
 
+chk("C10", "exploration",
+    "Request bodies built from seeded line sequences (generated JSON objects of every shape, non-object values, blank lines, CRLF, missing trailing newline, lines around the max-document-size / reader-buffer limit, clearly malformed and grey-zone JSON; plain or gzip) are served by the real BulkHandler.ServeHTTP and bulk.Ingestor into a recording storage client (one third forwarded to a real store and fetched back): status, created-item count, at most one storage call, byte-exact documents in order and per-document meta sizes are judged; the time rule is checked through Ingestor.ProcessDocuments with an explicit request time for every field name, format and offsets exactly at and 1 ms beyond the allowed drift.",
+    "Lines of max-3..max bytes are a don't-care band; only clearly malformed lines must reject the request; one max-document-size per worker process.", "runtime oracle on the ingestion path (recording storage client + independent JSON/time readers)", "DESIGN.md 2/C10")
+chk("C12", "exploration",
+    "Totality monitor: grammar-derived and mutated byte strings naming fields of every mapping type (and a nil mapping) go through ParseSeqQL, ParseQuery, ParseAggregationFilter and the store's Search handler on a live store; a panic at the call boundary or a dead worker refutes, a hang is caught by the watchdog with the in-flight string recorded. Meaning monitor: every boolean tree up to 5 (quick) / 7 (thorough) nodes over 3 atoms, plus seeded trees with in-lists and multi-word text atoms, is rendered with minimal, redundant and mixed parentheses in both languages, parsed, and the returned AST (AND/OR/NAND/NOT after NOT propagation) is evaluated over all truth assignments against the written expression.",
+    "NAND(a,b) read as (not a) and b (the AST's own dump; executed end-to-end by C02). 'Never loops' is bounded progress under a watchdog.", "runtime totality monitor (panic/liveness) + exhaustive small-scope truth-table oracle on parsed ASTs", "DESIGN.md 2/C12")
+chk("C13", "exploration",
+    "Small-scope exhaustive runtime oracle on the real matching code: every pattern over {a,b,*} x every token over {a,b} up to length 4 (quick) / 6 (thorough) through pattern.Search on unordered and ordered providers vs a DP glob matcher; every range over a value set (open/closed/unbounded ends) vs the numeric-if-all-given-ends-numeric rule; every sorted dictionary up to 5 tokens x every split into consecutive blocks through the real token.Table.SelectEntries + narrowing vs a scan of all tokens; seeded long strings and dictionaries up to 400 tokens.",
+    "The ordered provider of part (c) serves tokens from memory; the block-loading provider is covered end-to-end by C03's multi-block dictionaries.", "exhaustive small-scope enumeration executed against the real code with a brute-force oracle", "DESIGN.md 2/C13")
+chk("C18", "exploration",
+    "Exhaustive management check (every assignment of <=6 caches to live / released in round 1 / released in round 2, ReleaseBuckets after each round, accounting equality and a Rotate+Cleanup bound check) plus concurrent model-based runs under the race detector: 2-8 callers and one maintenance goroutine over caches sharing a cleaner, seeded delays at hooks between the critical sections of Get/save/recover/Cleanup/ReleaseBuckets, loaders that yield, fail and panic, caches released and created while running; monitors check coherence of every returned value, error/panic delivery, accounted size = sum of live entries and the size bound at quiescent barriers, and that live caches stay managed.",
+    "Usage protocol respected (no lookup on a released cache, maintenance calls from one goroutine). Hooks are compiled in with the verif tag.", "online invariant monitors at hooks + quiescent-point structural checks + Go race detector", "DESIGN.md 2/C18")
+
 def main():
     claimed = sorted(CHECKS)
     na = [{"property_id": p, "reason": "check not built yet in this session (planned; see DESIGN.md section 2)"} for p in ALL if p not in CHECKS]
